@@ -103,7 +103,7 @@ func runFetch(c *Case) *Line {
 	}
 	l.HW = relOff(hw, c.Origin)
 	from := c.Origin + c.From
-	ctx, cancel := context.WithTimeout(context.Background(), 20*time.Second)
+	ctx, cancel := context.WithTimeout(context.Background(), c.wait(30*time.Second))
 	defer cancel()
 
 	add := func(off int64, t time.Time, key, value []byte, hs []kafka.Header) {
@@ -121,7 +121,7 @@ func runFetch(c *Case) *Line {
 		case "client":
 			tr := &kafka.Transport{Dial: net.DialContext}
 			defer tr.CloseIdleConnections()
-			client := &kafka.Client{Addr: kafka.TCP("b1:9092"), Transport: tr, Timeout: 10 * time.Second}
+			client := &kafka.Client{Addr: kafka.TCP("b1:9092"), Transport: tr, Timeout: c.wait(4 * time.Second)}
 			res, err := client.Fetch(ctx, &kafka.FetchRequest{Topic: topic, Partition: 0, Offset: from, MinBytes: 1, MaxBytes: fetchMax,
 				MaxWait: 100 * time.Millisecond})
 			if err != nil {
@@ -162,7 +162,7 @@ func runFetch(c *Case) *Line {
 			}
 			conn := kafka.NewConnWith(nc, kafka.ConnConfig{ClientID: "vh", Topic: topic, Partition: 0})
 			defer conn.Close()
-			conn.SetDeadline(time.Now().Add(10 * time.Second))
+			conn.SetDeadline(time.Now().Add(c.wait(4 * time.Second)))
 			if _, err := conn.Seek(from, kafka.SeekAbsolute|kafka.SeekDontCheck); err != nil {
 				rerr = err
 				return
@@ -203,14 +203,14 @@ func runFetch(c *Case) *Line {
 			next := from
 			for next < hw {
 				// a record may legitimately be missing (the judge decides); the wait for it is bounded
-				mctx, mcancel := context.WithTimeout(ctx, 1500*time.Millisecond)
+				mctx, mcancel := context.WithTimeout(ctx, c.wait(3*time.Second))
 				m, err := r.FetchMessage(mctx)
 				mcancel()
 				if err != nil {
 					if !errors.Is(err, context.DeadlineExceeded) {
 						rerr = err
 					} else {
-						rerr = fmt.Errorf("timeout: no message at or after offset %d within 1.5s", next)
+						rerr = fmt.Errorf("timeout: no message at or after offset %d within %v", next, c.wait(3*time.Second))
 					}
 					return
 				}
